@@ -13,7 +13,7 @@
    with a projection `el : A -> elem` covers value and pointer forms and elements that carry
    more than their keys (identity, untagged fields).                                          *)
 From Coq Require Import List Bool ZArith String Permutation Sorted.
-From GT Require Import GSortModel GSortProofs Base.SortU.
+From GT Require Import GSortModel GSortProofs GSortTagModel GSortTagProofs Base.SortU.
 Import ListNotations.
 
 (* --- Less = lexicographic comparison ------------------------------------------------- *)
@@ -46,6 +46,63 @@ Theorem C08_generation_defined : forall ty fs name,
   (forall n, prios_distinct n fs = true) -> In name (sorter_names fs) ->
   exists f, gen_less ty fs name = Some f.
 Proof. exact gen_less_defined. Qed.
+
+Local Open Scope string_scope.
+(* --- from the tag text ------------------------------------------------------------------ *)
+(* GSortTagModel.v models the step before: the struct tag of a field (key/value pairs), the
+   Lookup/Replace loop that collects the gsort option strings, strings.Split on ",", strconv.Atoi.
+   `render_options` is what one writes for an intended (sorter, priority, accessor) triple. *)
+
+(* strconv.Atoi reads back strconv.Itoa, for every integer *)
+Theorem C08_atoi_itoa : forall z, atoi (itoa z) = Some z.
+Proof. exact atoi_itoa. Qed.
+
+(* parsing the rendered tag of a triple yields that triple (sorter and accessor free of commas) *)
+Theorem C08_tag_roundtrip : forall t,
+  tag_ok t = true -> parse_options (render_options false t) = Some t.
+Proof. exact parse_render. Qed.
+(* the bare form `gsort:"Sorter"` means priority 0, no accessor *)
+Theorem C08_tag_roundtrip_bare : forall s,
+  no_comma s = true ->
+  parse_options (render_options true {| tg_sorter := s; tg_prio := 0; tg_acc := "" |})
+  = Some {| tg_sorter := s; tg_prio := 0; tg_acc := "" |}.
+Proof. exact parse_render_bare. Qed.
+
+(* the Lookup/Replace loop of sortFieldDescFromTag collects exactly the values of the gsort keys,
+   in source order, whatever other keys the struct tag has (provided no other key ends in
+   "gsort", which the textual Replace would also hit) *)
+Theorem C08_tag_loop : forall tl,
+  only_gsort_keys tl -> gsort_options tl = gsort_values tl.
+Proof. exact gsort_options_values. Qed.
+
+(* a whole definition: generating from the written tags = generating from the intended triples *)
+Theorem C08_definition_roundtrip : forall ty fs name,
+  forallb (fun f => forallb tag_ok (fd_tags f)) fs = true ->
+  gen_less_raw ty (map render_field fs) name = gen_less ty fs name.
+Proof. exact gen_less_raw_render. Qed.
+
+(* and whatever text is given: if a Less is generated, the tags parsed to some definition and
+   the Less is the lexicographic comparison that definition's tags ask for *)
+Theorem C08_generated_less_from_text : forall ty rfs name f,
+  gen_less_raw ty rfs name = Some f ->
+  exists fs, parse_fields rfs = Some fs /\ forall a b, f a b = lex_lt (spec_keys name fs) a b.
+Proof.
+  intros ty rfs name f H. unfold gen_less_raw in H.
+  destruct (parse_fields rfs) as [fs|]; [|discriminate].
+  exists fs. split; [reflexivity|]. exact (gen_less_spec ty fs name f H).
+Qed.
+
+Example C08_example_tags :
+  parse_options "Sortables,1,String()"
+    = Some {| tg_sorter := "Sortables"; tg_prio := 1; tg_acc := "String()" |}
+  /\ parse_options "*ByFlag" = Some {| tg_sorter := "*ByFlag"; tg_prio := 0; tg_acc := "" |}
+  /\ parse_options "S,-03" = Some {| tg_sorter := "S"; tg_prio := -3; tg_acc := "" |}
+  /\ parse_options "S,1,String(),x" = None /\ parse_options "S,one" = None
+  /\ parse_options "S," = None /\ parse_options "S,1 " = None
+  /\ gsort_options [("json", "a,omitempty"); ("gsort", "A,1"); ("yaml", "b"); ("gsort", "*B,2")]
+     = ["A,1"; "*B,2"]
+  /\ itoa (-120) = "-120".
+Proof. vm_compute. repeat split. Qed.
 
 (* --- strict weak order ---------------------------------------------------------------- *)
 
@@ -153,6 +210,12 @@ Print Assumptions C08_keys_perm.
 Print Assumptions C08_keys_ascending.
 Print Assumptions C08_generation_accepts_iff.
 Print Assumptions C08_generation_defined.
+Print Assumptions C08_atoi_itoa.
+Print Assumptions C08_tag_roundtrip.
+Print Assumptions C08_tag_roundtrip_bare.
+Print Assumptions C08_tag_loop.
+Print Assumptions C08_definition_roundtrip.
+Print Assumptions C08_generated_less_from_text.
 Print Assumptions C08_irrefl.
 Print Assumptions C08_asym.
 Print Assumptions C08_trans.
